@@ -15,11 +15,13 @@ EXTENDS Naturals, Sequences, FiniteSets, TLC, Json
 CONSTANTS MaxLen
 
 Classes == {"CA", "CB"}
+Bare == {"CC"}          \* a class without docstring and without constructor, with an attribute named like CA's
 Funcs == {"fa", "fb"}
 Owners == Classes \cup Funcs \cup { c \o ".meth" : c \in Classes } \cup { c \o ".__init__" : c \in Classes }
 L(kind, owner, name) == [kind |-> kind, owner |-> owner, name |-> name]
 Lookups ==
-  { L("cls", c, "") : c \in Classes }
+  { L("cls", c, "") : c \in Classes \cup Bare }
+  \cup { L("attr", c, "at") : c \in Bare }
   \cup { L("fun", o, "") : o \in Owners \ Classes }
   \cup { L("par", f, "p") : f \in Funcs \cup { c \o ".meth" : c \in Classes } }
   \cup { L("par", c \o ".__init__", "x") : c \in Classes }
@@ -78,6 +80,7 @@ Documented(l, style) ==
   CASE l.kind = "fun" /\ l.owner = "CA.__init__" -> FALSE
     [] l.kind = "par" /\ l.owner = "CB.__init__" -> style = "NUMPYDOC"
     [] l.kind = "attr" /\ l.owner = "CB" -> style = "NUMPYDOC"
+    [] l.owner \in Bare -> FALSE
     [] OTHER -> TRUE
 ToSet(seq) == { seq[j] : j \in 1..Len(seq) }
 Judge(obs) ==
